@@ -1,13 +1,16 @@
 """C06 Rates and bath functions obey detailed balance and conserve probability.
 
-E-grid, two sections (both are complete Cartesian products, nothing is sampled):
+E-grid, two sections (both are complete constrained Cartesian products, nothing sampled):
 
 * section "system": size x site-energy gap x coupling x coupling pattern x bath
   (reorganisation energy, correlation time, per-site pattern) x temperature x admissible
-  time axis x builder (plain Hamiltonian+SBI / Aggregate).  For every point the REAL
-  RedfieldRateMatrix, RedfieldRelaxationTensor (read inside eigenbasis_of(ham)),
-  TDRedfieldRateMatrix and FoersterRateMatrix are built and compared with
-  mc/refmodels/golden_rule.py (library independent).
+  time axis x route.  Routes: "ham_sbi" (plain Hamiltonian + SystemBathInteraction with the
+  analytic C(t)), "aggregate" (Aggregate.build, get_Hamiltonian, get_SystemBathInteraction,
+  get_RelaxationTensor), "sd" (bath given as a SpectralDensity object; the correlation
+  function is the one the library derives from it with get_CorrelationFunction).
+  For every point the REAL RedfieldRateMatrix, RedfieldRelaxationTensor (read inside
+  eigenbasis_of(ham)), TDRedfieldRateMatrix and FoersterRateMatrix are built and compared
+  with mc/refmodels/golden_rule.py (library independent).
 * section "bath": bath parameters x temperature x frequency/time axis x origin of the
   spectral density (analytic / derived numerically from a correlation function):
   oddness of J and C(-w) = exp(-w/kT) C(w) on every axis point that has a mirror point.
@@ -15,17 +18,18 @@ E-grid, two sections (both are complete Cartesian products, nothing is sampled):
 Tolerance classes (DESIGN 1.5)
   R   1e-10 * scale; where a Boltzmann factor computed from scipy.constants enters, the
       unit allowance GR.UNIT_RTOL * (1 + |dE/kT|) is added (the library's k_B is a
-      hand-entered older CODATA value, 6e-8 away).
-  Q   golden-rule clauses: QTOL_GR relative.  Admissible grids only: window >= 10 tau_c,
-      dt <= tau_c/25, |w| inside the resolved window and below the library's 3000 cm^-1
-      cut-off, all Matsubara terms the grid can represent (nu_n <= 2 pi/dt) present in
-      the analytic C(t).  Foerster detailed balance: the quadrature error of the uphill
-      rate is absolute (it is a small difference of O(downhill) contributions), so the
+      hand-entered older CODATA value, 6e-8 away from scipy's).
+  Q   golden-rule clauses: a + b*w*dt relative (see _tol_rates/_tol_tensor for the
+      derivation).  Admissible grids only: window >= 10 tau_c, dt <= tau_c/25, |w| inside
+      the resolved window and below the library's 3000 cm^-1 cut-off, all Matsubara terms
+      the grid can represent (nu_n <= 2 pi/dt) present in the analytic C(t).
+      Foerster detailed balance: the quadrature error of the uphill rate is absolute (the
+      uphill rate is a small remainder of O(downhill) oscillating contributions), so the
       allowance is QTOL_F_REL*expected + QTOL_F_ABS*downhill, and the clause is only
-      evaluated when the integrand exp(-g_d-g_a) has decayed inside the window
-      (Re g_d+g_a at the window end >= F_DECAY); other points are counted, not checked.
-  Calibration numbers (worst on the clean tree, thorough grid) are in run.bounds / the
-  evidence file and were >= 5x below the tolerance when the driver was written.
+      evaluated where the integrand exp(-g_d-g_a) has decayed inside the window
+      (Re g_d+g_a at the window end >= F_DECAY); other pairs are counted, not checked.
+  Calibration numbers (worst on the clean tree) are written to the evidence file
+  (coverage.worst_deviation) on every run; tolerances were set >= 5x the thorough-grid worst.
 
 Not claimed (see DESIGN C06): detailed balance of the tensor / TD rate matrix uphill
 elements (they are below the half-Fourier transform's absolute error); non-negativity
@@ -35,18 +39,35 @@ by construction; only the time-independent RedfieldRateMatrix is held to k >= 0)
 import numpy
 
 from mc import isolation, systems
-from mc.explore import run_grid, product
+from mc.explore import run_grid, product, rotate
 from mc.refmodels import golden_rule as GR
 
 LEVEL = "model_checking"
 
 RTOL = 1.0e-10
-QTOL_GR = 0.03          # rate matrix, tensor, TD long-time limit vs golden rule
+QTOL_RATES = (0.02, 0.45)   # rate matrix vs golden rule: a + b * w * dt   (see _tol_rates)
+QTOL_TENSOR = (0.01, 0.15)  # tensor / TD long-time limit vs golden rule: a + b * w * dt
 QTOL_F_REL = 0.05       # Foerster detailed balance, relative part
-QTOL_F_ABS = 0.004      # Foerster detailed balance, absolute part in units of the downhill rate
+QTOL_F_ABS = 0.01       # Foerster detailed balance, absolute part in units of the downhill rate
 F_DECAY = 8.0           # exp(-8) = 3e-4 truncation of the Foerster integrand
 E0 = 10000.0            # site-energy offset (1/cm): ground state well outside the band
 FREQ_CUTOFF_CM = 3000.0  # library constant; transition frequencies above are not claimed
+
+
+def _tol_rates(w, dt):
+    """RedfieldRateMatrix uses the FFT of the Hermitian extension of C(t), i.e. the
+    trapezoid rule for the half-Fourier integral.  Euler-Maclaurin: the leading error of
+    2 Re int_0^inf C(t) e^{iwt} dt is -(dt^2/6) Re[C'(0) + i w C(0)]; with Matsubara
+    terms up to 2pi/dt, Re C'(0) ~ -4 lam/(tau dt), so the error is O(lam dt/tau) and
+    relative to C(w) ~ 2 (1+coth) lam/(tau w) it is ~ w dt/(3 (1+coth)): linear in w*dt.
+    Observed on the clean tree (thorough grid): <= 0.004 + 0.085 w dt; allowed 5x that."""
+    return QTOL_RATES[0] + QTOL_RATES[1] * w * dt
+
+
+def _tol_tensor(w, dt):
+    """Spline quadrature of C(t) e^{iwt} on the grid (tensor and K(t_max)); same scaling,
+    smaller constants: observed <= 0.002 + 0.03 w dt on the clean tree; allowed 5x."""
+    return QTOL_TENSOR[0] + QTOL_TENSOR[1] * w * dt
 
 
 # ---------------------------------------------------------------------------
@@ -79,7 +100,7 @@ def _baths(case):
 
 def admissible(case):
     nt, dt = case["axis"]
-    taus = [b[1] for b in _baths(case)] if "n" in case else [float(case["tau"])]
+    taus = [b[1] for b in _baths(case)]
     return nt * dt >= 10.0 * max(taus) and dt <= min(taus) / 25.0
 
 
@@ -90,17 +111,47 @@ def _bath_specs(case):
                  matsubara=nm) for (l, t) in _baths(case)]
 
 
-def _build(case):
+def _ham_sbi_from_sd(en, Jm, baths, T, ta):
+    """Bath specified as SpectralDensity objects; C(t) derived by the library."""
     qr = isolation.qr()
+    from quantarhei.qm.corfunctions import CorrelationFunctionMatrix, SpectralDensity
+    from quantarhei.qm import SystemBathInteraction, Operator
+    n = len(en)
+    h = numpy.zeros((n + 1, n + 1))
+    for i in range(n):
+        h[i + 1, i + 1] = en[i]
+        for j in range(n):
+            if i != j:
+                h[i + 1, j + 1] = Jm[i][j]
+    with qr.energy_units("1/cm"):
+        ham = qr.Hamiltonian(data=h)
+    cfm = CorrelationFunctionMatrix(ta, n, n)
+    ops = []
+    for i in range(n):
+        with qr.energy_units("1/cm"):
+            sd = SpectralDensity(ta, dict(ftype="OverdampedBrownian", reorg=baths[i][0],
+                                          cortime=baths[i][1], T=float(T)))
+        cf = sd.get_CorrelationFunction(temperature=float(T), ta=ta)
+        cfm.set_correlation_function(cf, [(i, i)], i + 1)
+        k = numpy.zeros((n + 1, n + 1))
+        k[i + 1, i + 1] = 1.0
+        ops.append(Operator(data=k))
+    return ham, SystemBathInteraction(ops, cfm)
+
+
+def _build(case):
     nt, dt = case["axis"]
     ta = systems.time_axis(nt, dt)
-    en, Jm, specs = _energies(case), _coupling(case), _bath_specs(case)
-    if case["builder"] == "aggregate":
-        agg = systems.aggregate(en, Jm, bath=specs, ta=ta)
+    en, Jm = _energies(case), _coupling(case)
+    if case["route"] == "aggregate":
+        agg = systems.aggregate(en, Jm, bath=_bath_specs(case), ta=ta)
         ham = agg.get_Hamiltonian()
         sbi = agg.get_SystemBathInteraction()
         return ta, ham, sbi, agg
-    ham, sbi = systems.ham_sbi(en, Jm, specs, ta)
+    if case["route"] == "sd":
+        ham, sbi = _ham_sbi_from_sd(en, Jm, _baths(case), case["T"], ta)
+        return ta, ham, sbi, None
+    ham, sbi = systems.ham_sbi(en, Jm, _bath_specs(case), ta)
     return ta, ham, sbi, None
 
 
@@ -128,6 +179,7 @@ def eval_system(case):
 
     n, T = case["n"], float(case["T"])
     nt, dt = case["axis"]
+    route = case["route"]
     baths = _baths(case)
     en, Jm = _energies(case), _coupling(case)
     G, ev, S = GR.golden_rule_rates(en, Jm, baths, T)
@@ -140,12 +192,23 @@ def eval_system(case):
 
     ta, ham, sbi, agg = _build(case)
 
-    def gr_compare(val, a, b):
-        """relative deviation from the golden rule, or None if the reference is zero."""
+    def golden(clause, key, val, a, b, tolf, what):
+        """compare one downhill element with the golden rule (class Q)."""
         g = G[a, b]
-        if g <= 1.0e-14:
-            return None if abs(val) <= 1.0e-12 else float("inf")
-        return abs(val / g - 1.0)
+        w = ev[b] - ev[a]
+        if g <= 1.0e-14:                      # uncoupled: the rate must vanish
+            if abs(val) > 1.0e-12:
+                viol.append((key, "%s(%d<-%d) = %g but the golden-rule rate is 0"
+                             % (what, a, b, val), None))
+            return
+        d = abs(val / g - 1.0)
+        tol = tolf(w, dt)
+        worst(clause, d)
+        worst(clause + "/tol", d / tol)
+        if not d <= tol:
+            viol.append((key, "%s(%d<-%d) = %g, golden rule %g at w = %.1f 1/cm "
+                         "(rel. dev. %.3g > %.3g)"
+                         % (what, a, b, val, g, w / GR.CM2INT, d, tol), None))
 
     # ---- A: time-independent Redfield rate matrix ----------------------------
     K = numpy.array(RedfieldRateMatrix(ham, sbi).data, dtype=float)
@@ -187,21 +250,14 @@ def eval_system(case):
                          % (b, a, a, b, up / dn if dn else float("inf"), B, x),
                          {"up": up, "down": dn}))
     for (a, b) in down:
-        d = gr_compare(K[a + 1, b + 1], a, b)
-        if d is None:
-            continue
-        worst("rates.golden", d)
-        if d > QTOL_GR:
-            viol.append(("redfield-rates/golden-rule/downhill",
-                         "K(%d<-%d) = %g, golden rule %g (rel. dev. %.3g > %g)"
-                         % (a, b, K[a + 1, b + 1], G[a, b], d, QTOL_GR), None))
+        golden("rates.golden", "redfield-rates/golden-rule/downhill", K[a + 1, b + 1],
+               a, b, _tol_rates, "K")
 
     # ---- B: Redfield tensor, downhill population element in the eigenbasis -------
-    routes = [("ctor", None)]
+    troutes = [("ctor", None)]
     if agg is not None:
-        routes.append(("aggregate", agg))
-    ktens = None
-    for rname, ag in routes:
+        troutes.append(("aggregate", agg))
+    for rname, ag in troutes:
         if ag is None:
             # the library's own protocol (opensystem.get_RelaxationTensor): the tensor is
             # computed in the eigenbasis from the site-basis Hamiltonian data
@@ -224,41 +280,27 @@ def eval_system(case):
                          "eigenbasis_of(ham) energies %s differ from eigh %s"
                          % (ediag[1:], ev), None))
             continue
-        ktens = numpy.array([[dat[a + 1, a + 1, b + 1, b + 1].real for b in range(n)]
-                             for a in range(n)])
         for (a, b) in down:
-            d = gr_compare(ktens[a, b], a, b)
-            if d is None:
-                continue
-            worst("tensor.golden", d)
-            if d > QTOL_GR:
-                viol.append(("redfield-tensor/golden-rule/downhill/%s" % rname,
-                             "R[%d%d,%d%d] = %g in eigenbasis_of(H), golden rule %g "
-                             "(rel. dev. %.3g > %g)"
-                             % (a, a, b, b, ktens[a, b], G[a, b], d, QTOL_GR), None))
+            golden("tensor.golden", "redfield-tensor/golden-rule/downhill/%s" % rname,
+                   float(dat[a + 1, a + 1, b + 1, b + 1].real), a, b, _tol_tensor,
+                   "R[aa,bb] in eigenbasis_of(H), ")
 
     # ---- C: time-dependent Redfield rate matrix ---------------------------------
     KT = numpy.array(TDRedfieldRateMatrix(ham, sbi).data, dtype=float)
     tscale = max(float(numpy.max(numpy.abs(KT))), 1.0e-300)
     cs = float(numpy.max(numpy.abs(KT.sum(axis=1))))
     worst("td.colsum/scale", cs / tscale)
-    if cs > RTOL * tscale:
+    if not cs <= RTOL * tscale:
         viol.append(("td-redfield-rates/colsum", "column sums of K(t) differ from 0 by %g "
                      "(max |K| %g)" % (cs, tscale), None))
     gs = max(float(numpy.max(numpy.abs(KT[:, 0, :]))), float(numpy.max(numpy.abs(KT[:, :, 0]))))
     worst("td.ground/scale", gs / tscale)
-    if gs > RTOL * tscale:
+    if not gs <= RTOL * tscale:
         viol.append(("td-redfield-rates/ground-state", "K(t) couples the ground state: %g"
                      % gs, None))
     for (a, b) in down:
-        d = gr_compare(KT[-1, a + 1, b + 1], a, b)
-        if d is None:
-            continue
-        worst("td.golden", d)
-        if d > QTOL_GR:
-            viol.append(("td-redfield-rates/golden-rule/long-time",
-                         "K(t_max)(%d<-%d) = %g, golden rule %g (rel. dev. %.3g > %g)"
-                         % (a, b, KT[-1, a + 1, b + 1], G[a, b], d, QTOL_GR), None))
+        golden("td.golden", "td-redfield-rates/golden-rule/long-time",
+               float(KT[-1, a + 1, b + 1]), a, b, _tol_tensor, "K(t_max)")
 
     # ---- D: Foerster rate matrix (site basis) ------------------------------------
     F = numpy.array(FoersterRateMatrix(ham, sbi).data, dtype=float)
@@ -300,7 +342,7 @@ def eval_system(case):
                 worst("foerster.db.abs", err)
                 if B > 0.05:
                     worst("foerster.db.rel(B>0.05)", err / B)
-                if err > tol:
+                if not err <= tol:
                     viol.append(("foerster-rates/detailed-balance",
                                  "k(%d<-%d)/k(%d<-%d) = %g, exp(-d(E-lambda)/kT) = %g; "
                                  "|diff| %.3g > %.3g" % (hi, lo, lo, hi, up / dn, B, err, tol),
@@ -311,7 +353,7 @@ def eval_system(case):
                [float("%.3g" % K[a + 1, b + 1]) for (a, b) in down],
                [float("%.3g" % K[b + 1, a + 1]) for (a, b) in down], fdig]
     return {"nontrivial": nontrivial, "outcome": outcome, "violations": _first(viol),
-            "n": 3 + (len(routes) - 1),
+            "n": 3 + (len(troutes) - 1),
             "info": {"dev": dev, "foe_adm": nfoe_adm, "foe_inadm": nfoe_in,
                      "pairs": len(down)}}
 
@@ -332,65 +374,69 @@ def eval_bath(case):
     lam, tau = float(case["lam"]), float(case["tau"])
     params = dict(ftype="OverdampedBrownian", reorg=lam, cortime=tau, T=T)
     kind, a1, a2 = case["axis"]
+    origin = case["origin"]
     if kind == "t":
         ax = qr.TimeAxis(0.0, int(a1), float(a2))
     else:
-        # frequency axis given directly (internal units), N points, centred or offset
+        # frequency axis given directly (internal units): centred ("w") or displaced by
+        # a fraction of a step ("w-off": no point has a mirror point -> trivial)
         N, step = int(a1), float(a2)
         start = -(N // 2) * step if kind == "w" else -(N // 2) * step + 0.37 * step
         with qr.energy_units("int"):
             ax = qr.FrequencyAxis(start, N, step)
-    if case["origin"] == "analytic":
+    if origin == "analytic":
         with qr.energy_units("1/cm"):
             sd = SpectralDensity(ax, params)
     else:
-        if kind != "t":
-            return {"nontrivial": False, "outcome": "n/a", "violations": []}
         params["matsubara"] = GR.matsubara_terms_for_grid(T, float(a2))
         with qr.energy_units("1/cm"):
             cf = qr.CorrelationFunction(ax, params)
         sd = cf.get_SpectralDensity()
     w = numpy.array(sd.axis.data, dtype=float)
     Jw = numpy.real(numpy.array(sd.data))
-    # mirror points: w_i = start + i*step, -w_i on the axis iff 2*start/step is an integer
     step = sd.axis.step
     pairs = []
     for i in range(len(w)):
         k = int(round((-w[i] - w[0]) / step))
         if 0 <= k < len(w) and abs(w[k] + w[i]) <= 1.0e-9 * step:
             pairs.append((i, k))
-    origin = case["origin"]
     if not pairs:
         return {"nontrivial": False, "outcome": ["no-mirror", kind, a1], "violations": []}
     ii = numpy.array([p[0] for p in pairs])
     kk = numpy.array([p[1] for p in pairs])
     jscale = max(float(numpy.max(numpy.abs(Jw))), 1.0e-300)
-    e = float(numpy.max(numpy.abs(Jw[ii] + Jw[kk])))
-    worst("sd.odd/scale[%s]" % origin, e / jscale)
-    if e > RTOL * jscale:
+    # the axis points are mirror images only up to the rounding of the axis itself
+    # (start + i*step accumulates ~1e-13): allow max|J'| * |w_i + w_k|, max|J'| = 2 lam tau
+    lip = 2.0 * lam * GR.CM2INT * tau
+    asym = numpy.abs(w[ii] + w[kk])
+    e = float(numpy.max(numpy.abs(Jw[ii] + Jw[kk]) - 2.0 * lip * asym))
+    worst("sd.odd/scale[%s]" % origin, max(e, 0.0) / jscale)
+    if not e <= RTOL * jscale:
         viol.append(("spectral-density/odd/%s" % origin,
-                     "max |J(w)+J(-w)| = %g (max |J| %g)" % (e, jscale), None))
+                     "max |J(w)+J(-w)| = %g (max |J| %g)"
+                     % (float(numpy.max(numpy.abs(Jw[ii] + Jw[kk]))), jscale), None))
     # FT correlation function derived from the spectral density
     ft = sd.get_FTCorrelationFunction(temperature=T) if origin != "analytic" \
         else sd.get_FTCorrelationFunction()
     Cw = numpy.real(numpy.array(ft.data))
-    sel = numpy.abs(w[ii]) > 1.0e-7 + 0.5 * step * 0    # not the L'Hospital point
-    sel &= w[ii] > 0
+    sel = w[ii] > 1.0e-7           # w > 0, and not the L'Hospital point w = 0
     wi, Ci, Ck = w[ii][sel], Cw[ii][sel], Cw[kk][sel]
     nz = len(wi)
     if nz:
         x = wi / GR.kBT(T)
         B = numpy.exp(-x)
         err = numpy.abs(Ck - B * Ci)
+        # R: rounding of (1+coth) at both points is relative to C(w); unit allowance on B;
+        # axis asymmetry enters through dC/dw <~ C/w + C/kT
         tol = (RTOL + GR.UNIT_RTOL * (1.0 + x) * B) * numpy.abs(Ci) + 1.0e-300
         r = float(numpy.max(err / tol))
         worst("ftc.db/tol[%s]" % origin, r)
-        if r > 1.0:
+        if not r <= 1.0:
             m = int(numpy.argmax(err / tol))
             viol.append(("ft-corfce/detailed-balance/%s" % origin,
                          "C(-w)=%g, exp(-w/kT) C(w)=%g at w=%g rad/fs (w/kT=%g)"
                          % (Ck[m], B[m] * Ci[m], wi[m], x[m]), None))
-        if not numpy.all(Ci > 0):
+        if origin == "analytic" and not numpy.all(Ci > 0):
             # (1+coth) J > 0 for w > 0; a vanishing C would make the clause vacuous
             viol.append(("ft-corfce/not-positive/%s" % origin,
                          "C(w) <= 0 at some w > 0", None))
@@ -415,23 +461,28 @@ def replay(case):
 # ---------------------------------------------------------------------------
 def system_cases(tier):
     if tier == "quick":
-        dom = {"section": ["system"], "builder": ["ham_sbi"], "n": [2, 3],
+        dom = {"section": ["system"], "route": ["ham_sbi", "sd"], "n": [2, 3],
                "Jpat": ["chain"], "bathpat": ["same", "graded"],
                "J": [0.0, 30.0, 100.0, -80.0], "gap": [0.0, 100.0, 300.0],
                "lam": [10.0, 40.0], "tau": [50.0, 100.0], "T": [300.0, 77.0],
                "axis": [[1500, 1.0], [3000, 0.5]]}
     else:
-        dom = {"section": ["system"], "builder": ["ham_sbi", "aggregate"], "n": [2, 3, 4],
+        dom = {"section": ["system"], "route": ["ham_sbi", "sd", "aggregate"], "n": [2, 3, 4],
                "Jpat": ["chain", "full"], "bathpat": ["same", "graded"],
                "J": [0.0, 30.0, 100.0, -80.0], "gap": [0.0, 100.0, 300.0],
                "lam": [10.0, 40.0], "tau": [50.0, 100.0], "T": [300.0, 150.0, 77.0],
-               "axis": [[1500, 1.0], [3000, 0.5], [3000, 1.0], [4000, 1.0]]}
+               "axis": [[1500, 1.0], [3000, 0.5], [4000, 1.0]]}
 
     def ok(c):
         if c["n"] == 2 and c["Jpat"] == "full":
             return False                       # identical to the chain
-        if c["J"] == 0.0 and (c["Jpat"] != "chain" or c["bathpat"] != "same"):
+        if c["n"] == 4 and (c["Jpat"], c["bathpat"]) != ("full", "graded") and c["J"] != 0.0:
+            return False                       # 4 sites: the most general pattern only
+        if c["J"] == 0.0 and (c["Jpat"] != "chain" or c["bathpat"] != "same"
+                              or c["route"] != "ham_sbi"):
             return False                       # uncoupled: one representative per size
+        if tier == "quick" and c["route"] == "sd" and c["n"] == 3:
+            return False
         return admissible(c)
     return product(dom, ok)
 
@@ -456,10 +507,11 @@ def cases(tier):
 
 
 def run(run):
-    run.rule = ("full product (size x gap x coupling x pattern x bath x T x admissible axis x "
-                "builder) + full product of bath functions; non-trivial system = at least one "
-                "non-degenerate downhill pair with golden-rule rate > 1e-9/fs (J != 0); "
-                "non-trivial bath case = at least one axis point w > 0 with a mirror point")
+    run.rule = ("full constrained product (route x size x coupling pattern x bath pattern x "
+                "coupling x gap x lambda x tau_c x T x admissible axis) + full product of bath "
+                "functions; non-trivial system = at least one non-degenerate downhill exciton "
+                "pair with golden-rule rate > 1e-9/fs (J != 0); non-trivial bath case = at "
+                "least one axis point w > 0 with a mirror point")
     run.assumptions = [
         "reference: mc/refmodels/golden_rule.py (analytic J, (1+coth)J, own eigh, scipy.constants)",
         "analytic C(t) built with all Matsubara terms nu_n <= 2pi/dt (n <= 1/(kT dt))",
@@ -467,13 +519,20 @@ def run(run):
         "Foerster detailed balance only where Re(g_d+g_a)(t_max) >= %g" % F_DECAY,
         "tensor built by the library's own protocol (protect_basis; with eigenbasis_of(ham)) "
         "and read inside eigenbasis_of(ham); uphill tensor/TD elements not claimed",
-        "non-negativity demanded of RedfieldRateMatrix only (K(t) oscillates at short times)"]
-    run.bounds = {"tolerances": {"R": RTOL, "unit": GR.UNIT_RTOL, "golden_rule_rel": QTOL_GR,
-                                 "foerster_db": [QTOL_F_REL, QTOL_F_ABS]}}
-    from mc.explore import rotate
+        "non-negativity demanded of RedfieldRateMatrix only (K(t) oscillates at short times)",
+        "4-site systems only with the full coupling pattern and graded baths; uncoupled "
+        "systems (J=0) one representative per size"]
+    bc, sc = bath_cases(run.tier), system_cases(run.tier)
+    run.bounds = {"tolerances": {"R": RTOL, "unit": GR.UNIT_RTOL,
+                                 "rates_vs_golden(a+b*w*dt)": QTOL_RATES,
+                                 "tensor_td_vs_golden(a+b*w*dt)": QTOL_TENSOR,
+                                 "foerster_db(rel,abs)": [QTOL_F_REL, QTOL_F_ABS]},
+                  "cases": {"bath": len(bc), "system": len(sc)},
+                  "sizes": sorted({c["n"] for c in sc}),
+                  "axes": sorted({tuple(c["axis"]) for c in sc})}
     worst = {}
     counts = {"foe_adm": 0, "foe_inadm": 0, "pairs": 0}
-    for sect, cs in (("bath", bath_cases(run.tier)), ("system", system_cases(run.tier))):
+    for sect, cs in (("bath", bc), ("system", sc)):
         infos = run_grid(run, rotate(cs, run.seed), eval_case, section=sect)
         for inf in infos:
             for k, v in inf.get("dev", {}).items():
@@ -484,5 +543,3 @@ def run(run):
              foerster_pairs_checked=counts["foe_adm"],
              foerster_pairs_inadmissible_window=counts["foe_inadm"],
              downhill_pairs_checked=counts["pairs"])
-    run.bounds["cases"] = {"bath": len(bath_cases(run.tier)),
-                           "system": len(system_cases(run.tier))}
